@@ -477,8 +477,8 @@ func parseNewMessage(d *ast.FuncDecl, pos func(token.Pos) string) ([]schemaCase,
 
 // ---- facts about transport/serialize ------------------------------------------
 
-// exprText prints an expression and removes all whitespace.
-func exprText(fset *token.FileSet, e ast.Node) string {
+// schemaExprText prints an expression and removes all whitespace.
+func schemaExprText(fset *token.FileSet, e ast.Node) string {
 	var buf bytes.Buffer
 	printer.Fprint(&buf, fset, e)
 	return strings.Join(strings.Fields(buf.String()), "")
@@ -520,8 +520,8 @@ func genSerializeFacts(repo string, b *strings.Builder) error {
 				if !ok || len(fd.Body.List) < 2 {
 					return fmt.Errorf("%s: Deserialize: receiver/body not understood", pos(fd.Pos()))
 				}
-				s0 := exprText(fset, fd.Body.List[0])
-				s1 := exprText(fset, fd.Body.List[1])
+				s0 := schemaExprText(fset, fd.Body.List[0])
+				s1 := schemaExprText(fset, fd.Body.List[1])
 				switch {
 				case strings.HasPrefix(s0, "v,err:=decodeList(data,") && strings.HasSuffix(s0, ")"):
 					tops = append(tops, top{rid.Name, "listChecked"})
@@ -531,14 +531,14 @@ func genSerializeFacts(repo string, b *strings.Builder) error {
 					return fmt.Errorf("%s: %s.Deserialize: the way the payload is decoded is not understood (%s; %s)", pos(fd.Pos()), rid.Name, s0, s1)
 				}
 				// the rest must go through listToMsg on the same v
-				body := exprText(fset, fd.Body)
+				body := schemaExprText(fset, fd.Body)
 				if !strings.Contains(body, "iflen(v)==0{returnnil,errors.New(\"invalidmessage\")}") || !strings.HasSuffix(body, ",v)}") || !strings.Contains(body, "returnlistToMsg(wamp.MessageType(typ),v)") {
 					return fmt.Errorf("%s: %s.Deserialize: body after decoding not understood", pos(fd.Pos()), rid.Name)
 				}
 			case fd.Recv == nil && fd.Name.Name == "decodeList":
 				sawDecodeList = true
 				want := "{varvanyiferr:=codec.NewDecoderBytes(data,h).Decode(&v);err!=nil{returnnil,err}list,ok:=v.([]any)if!ok{returnnil,errors.New(\"invalidmessage:notalist\")}returnlist,nil}"
-				if got := exprText(fset, fd.Body); got != want {
+				if got := schemaExprText(fset, fd.Body); got != want {
 					return fmt.Errorf("%s: decodeList: body not understood: %s", pos(fd.Pos()), got)
 				}
 				decodeListChecked = true
@@ -549,7 +549,7 @@ func genSerializeFacts(repo string, b *strings.Builder) error {
 					if !ok {
 						return true
 					}
-					c := exprText(fset, is.Cond)
+					c := schemaExprText(fset, is.Cond)
 					if strings.Contains(c, "ConvertibleTo(") {
 						found = append(found, c)
 					}
